@@ -57,6 +57,31 @@ func eachSet(s data.IntSet) []int {
 	return out
 }
 
+// every value iterated once (inside another iteration's callback)
+func nestedEach(vals []interface{}) {
+	for _, v := range vals {
+		switch x := v.(type) {
+		case data.IntSet:
+			x.Each(func(int) {})
+		case data.IntMap:
+			x.Each(func(int, int) {})
+			_ = x.Keys()
+		}
+	}
+}
+
+func sameInts(a, b []int) bool {
+	if len(a) != len(b) {
+		return false
+	}
+	for i := range a {
+		if a[i] != b[i] {
+			return false
+		}
+	}
+	return true
+}
+
 // readValue re-reads one value through the public API only
 func readValue(v interface{}, probes []int) string {
 	switch x := v.(type) {
@@ -103,7 +128,18 @@ func c15(t *Term) string {
 			mp := func(i int) data.IntMap { return vals[o.Args[i].Int()].(data.IntMap) }
 			switch o.Head {
 			case "OpNewSet":
-				vals = append(vals, data.NewIntSet(zints(o.Args[0])...))
+				// the caller's slice stays the caller's: it is not reordered by the constructor, and the caller goes
+				// on using it (here: overwrites it) without touching the set
+				xs := zints(o.Args[0])
+				before := append([]int(nil), xs...)
+				s := data.NewIntSet(xs...)
+				for i := range xs {
+					if xs[i] != before[i] {
+						res = OT("CallerSliceModified")
+					}
+					xs[i] = -7 - i
+				}
+				vals = append(vals, s)
 			case "OpInsert":
 				vals = append(vals, set(0).Insert(zint(o.Args[1])))
 			case "OpUnion":
@@ -111,7 +147,17 @@ func c15(t *Term) string {
 			case "OpLen":
 				res = OZ(int64(set(0).Len()))
 			case "OpEachS":
-				res = ozs(eachSet(set(0)))
+				// iterations may nest: inside the callback every other value is iterated as well
+				var got []int
+				set(0).Each(func(v int) {
+					got = append(got, v)
+					nestedEach(vals)
+				})
+				if again := eachSet(set(0)); !sameInts(got, again) {
+					res = OT("NestedIterationDiffers", ozs(got), ozs(again))
+				} else {
+					res = ozs(again)
+				}
 			case "OpNewMapNil":
 				vals = append(vals, data.NewIntMap(nil))
 			case "OpNewMap":
@@ -129,7 +175,23 @@ func c15(t *Term) string {
 			case "OpKeys":
 				res = ozs(sortedKeys(mp(0)))
 			case "OpEachM":
-				res = opairs(mp(0))
+				plain := opairs(mp(0))
+				type kv struct{ k, v int }
+				var kvs []kv
+				mp(0).Each(func(k, v int) {
+					kvs = append(kvs, kv{k, v})
+					nestedEach(vals)
+				})
+				sort.Slice(kvs, func(i, j int) bool { return kvs[i].k < kvs[j].k })
+				items := make([]string, len(kvs))
+				for i, p := range kvs {
+					items[i] = OL(OZ(int64(p.k)), OZ(int64(p.v)))
+				}
+				if nested := OL(items...); nested != plain {
+					res = OT("NestedIterationDiffers", nested, plain)
+				} else {
+					res = plain
+				}
 			default:
 				panic("unknown op " + o.Head)
 			}
